@@ -63,7 +63,11 @@ def encTree (t : TreeObj) : String :=
     match o with
     | none => "0 0 0 0"
     | some b => s!"1 {elemC b.elem} {sysC b.sys} {metricC b.metric}"
-  s!"{elemC t.coords} {sysC t.sys} {metricC t.metric} {encB t.recon} {occ t.slotN} {occ t.slotF} {occ t.slotE}"
+  s!"{elemC t.coords} {sysC t.sys} {metricC t.metric} {encB t.recon} {occ t.slotN} {occ t.slotF} {occ t.slotE} {t.count}"
+
+def sizesP : P Sizes := do
+  let a ← nat; let b ← nat; let c ← nat
+  pure ⟨a, b, c⟩
 
 def handle (cmd : String) (args : List Int) : Option String :=
   match cmd with
@@ -115,22 +119,37 @@ def handle (cmd : String) (args : List Int) : Option String :=
       match distances F c els q with
       | some D => pure s!"ok {encFloats D}"
       | none => pure "err"
-  /- C11.cache variant n req… → for every request: reflects-bit and the wrapper handed back -/
+  /- C11.cache nNode nFace nEdge variant n req… → for every request: reflects-bit and the wrapper
+     handed back (incl. its element count) -/
   | "C11.cache" => do
-      let (v, rs) ← run (do let v ← nat; let rs ← list reqP; pure (variantOf v, rs)) args
-      let (_, ts) := runReqs v Cache.empty rs
-      pure (" ".intercalate ((List.zip rs ts).map (fun p => s!"{encB (reflects p.1 p.2)} {encTree p.2}")))
-  /- C11.reflects req coords sys metric builtElem builtSys builtMetric
+      let (z, v, rs) ← run (do let z ← sizesP; let v ← nat; let rs ← list reqP; pure (z, variantOf v, rs)) args
+      let (_, ts) := runReqs z v Cache.empty rs
+      pure (" ".intercalate ((List.zip rs ts).map (fun p => s!"{encB (reflects z p.1 p.2)} {encTree p.2}")))
+  /- C11.guard nNode nFace nEdge variant n req… k → does the `k` guard of the wrapper handed back
+     for the LAST request of the history accept `k` (model: iff 1 ≤ k ≤ n of the requested kind,
+     `handback_guard`) -/
+  | "C11.guard" => do
+      let (z, v, rs, k) ← run (do
+        let z ← sizesP; let v ← nat; let rs ← list reqP; let k ← int
+        pure (z, variantOf v, rs, k)) args
+      let (_, ts) := runReqs z v Cache.empty rs
+      match ts.getLast? with
+      | some t => pure (encB (t.accepts k))
+      | none => none
+  /- C11.reflects nNode nFace nEdge req coords sys metric builtElem builtSys builtMetric count
      the Lean predicate on an OBSERVED wrapper (its current sklearn tree described by what the
      harness could observe of it) -/
   | "C11.reflects" => do
-      let (r, e, s, m, be, bs, bm) ← run (do
+      let (z, r, e, s, m, be, bs, bm, cnt) ← run (do
+        let z ← sizesP
         let r ← reqP; let e ← nat; let s ← nat; let m ← nat; let be ← nat; let bs ← nat; let bm ← nat
-        pure (r, e, s, m, be, bs, bm)) args
+        let cnt ← nat
+        pure (z, r, e, s, m, be, bs, bm, cnt)) args
       let b : Built := ⟨elemOf be, sysOf bs, metricOf bm⟩
-      let t : TreeObj := ({ coords := elemOf e, sys := sysOf s, metric := metricOf m, recon := false,
-                            slotN := none, slotF := none, slotE := none } : TreeObj).setSlot (elemOf e) b
-      pure (encB (reflects r t))
+      let t : TreeObj := ({ coords := elemOf e, count := cnt, sys := sysOf s, metric := metricOf m,
+                            recon := false, slotN := none, slotF := none, slotE := none }
+                          : TreeObj).setSlot (elemOf e) b
+      pure (encB (reflects z r t))
   | _ => none
 
 end UxVerif.Driver.C11
